@@ -93,18 +93,37 @@ CON0 = 100          # constituency ids 100..
 PERS0 = 200         # list persons 200 + 10*party + position
 
 
+# candidate objects: per case one of common's naming modes (strings, ints incl. 0, '' for candidate 0,
+# votelib.candidate.Person objects compared by identity); field `_names`, assigned by common._assign_names
+NAME_MODES = ['str', 'int0', 'empty0', 'person']
+NAMES = Names(prefix='c')
+
+
 def nm(i):
-    return f'c{i}'
+    return NAMES.n(i)
 
 
 def idx(name):
-    return int(name[1:])
+    return NAMES.i(name)
+
+
+def clone(x):
+    """copy of the containers, the candidate objects themselves are shared (a Person is its identity)"""
+    if isinstance(x, _Empty):
+        return x
+    if isinstance(x, dict):
+        return {k: clone(v) for k, v in x.items()}
+    if isinstance(x, list):
+        return [clone(v) for v in x]
+    return x
 
 
 # ------------------------------------------------------------------------------------------------
 # protocol values
 
-def enc(x):
+def enc(x, atom='num'):
+    """Python value -> protocol.  With int candidates the type does not tell a candidate from a number, the
+    POSITION does: dict keys and list members are candidates (or Ties), dict values and bare atoms are numbers."""
     import votelib.evaluate.core as vcore
     if x is None:
         return None
@@ -112,17 +131,20 @@ def enc(x):
         return {'tie': sorted(idx(c) for c in x)}
     if isinstance(x, bool):
         raise TypeError('bool in result')
-    if isinstance(x, (int, Fraction)):
-        return num_str(x)
-    if isinstance(x, str):
-        return idx(x)
     if isinstance(x, (list, tuple)):
-        return [enc(v) for v in x]
+        return [enc(v, 'cand') for v in x]
     if isinstance(x, dict):
-        return {'dict': [[enc(k), enc(v)] for k, v in x.items()]}
+        return {'dict': [[enc(k, 'cand'), enc(v, 'num')] for k, v in x.items()]}
     if isinstance(x, float):
         return 'float:' + repr(x)
-    raise TypeError(f'cannot encode {x!r}')
+    if atom == 'cand':
+        import common as _c
+        if isinstance(x, (int, Fraction)) and _c.NAME_MODE != 'int0':
+            return num_str(x)
+        return idx(x)
+    if isinstance(x, (int, Fraction)):
+        return num_str(x)
+    return idx(x)          # a candidate object where a number is expected: let the comparison show it
 
 
 def dec(j):
@@ -297,9 +319,9 @@ def build(node):
 
 def call_obj(obj, votes, kw, watch=None):
     """the wrapper call as a user writes it: votes and n_seats positionally, the rest by keyword"""
-    votes = copy.deepcopy(votes)
-    kw = copy.deepcopy(kw)
-    before = (copy.deepcopy(votes), copy.deepcopy(kw))
+    votes = clone(votes)
+    kw = clone(kw)
+    before = (clone(votes), clone(kw))
     kw2 = dict(kw)
     pos = [kw2.pop('n')] if 'n' in kw2 else []
     try:
@@ -322,13 +344,13 @@ class Hand:
         self.trace = []      # (B, votes, kw, ('ok', result) | ('err', name)) in completion order
 
     def run(self, b, votes, kw):
-        votes0, kw0 = copy.deepcopy(votes), copy.deepcopy(kw)
+        votes0, kw0 = clone(votes), clone(kw)
         try:
             r = self._run(b, votes, kw)
         except Exception as e:      # noqa
             self.trace.append((b, votes0, kw0, ('err', err_name(e))))
             raise
-        self.trace.append((b, votes0, kw0, ('ok', copy.deepcopy(r))))
+        self.trace.append((b, votes0, kw0, ('ok', clone(r))))
         return r
 
     def _run(self, b, votes, kw):
@@ -347,7 +369,7 @@ class Hand:
             return self.run(K['e'], votes, kw)
         if k == 'pre':
             # converting, then evaluating
-            return self.run(K['e'], b.obj.converter.convert(copy.deepcopy(votes)), kw)
+            return self.run(K['e'], b.obj.converter.convert(clone(votes)), kw)
         if k == 'post':
             return b.obj.converter.convert(self.run(K['e'], votes, kw))
         if k == 'tb':
@@ -482,11 +504,11 @@ class Hand:
     # multi-stage distribution equals chaining the stages with accumulated previous gains
     def _multistage(self, b, votes, kw):
         depth = b.node['depth']
-        acc = copy.deepcopy(kw.get('prev', {}))
+        acc = clone(kw.get('prev', {}))
         rounds = b.kids['rounds']
         per_stage = [votes] * len(rounds) if isinstance(votes, dict) else list(votes)
         for st, sv in zip(rounds, per_stage):
-            r = self.run(st, sv, {'n': kw.get('n'), 'prev': copy.deepcopy(acc), 'max': kw.get('max', {})})
+            r = self.run(st, sv, {'n': kw.get('n'), 'prev': clone(acc), 'max': kw.get('max', {})})
             acc = _nested_add(acc, r, depth)
         return acc
 
@@ -496,7 +518,7 @@ class Hand:
         if kw.get('max'):
             raise NotImplementedError('max_seats not supported')
         depth = b.node['depth']
-        acc = copy.deepcopy(kw.get('prev', {}))
+        acc = clone(kw.get('prev', {}))
         n = kw.get('n')
         rounds = b.kids['rounds']
         quotas = [vquota.construct(q) for q in b.node['quotas']] + [None]
@@ -588,7 +610,7 @@ def enc_hand(x):
     if isinstance(x, _Empty):
         return 'EMPTY'
     if isinstance(x, dict):
-        return {'dict': [[enc(k), enc_hand(v)] for k, v in x.items()]}
+        return {'dict': [[enc(k, 'cand'), enc_hand(v)] for k, v in x.items()]}
     return enc(x)
 
 
@@ -746,7 +768,7 @@ def diagnose(b, votes, kw, w, h):
         inner = b.kids['e']
         pre = b.kids.get('pre')
         try:
-            seats = Hand()._apportion(b, copy.deepcopy(votes), kw.get('n'))
+            seats = Hand()._apportion(b, clone(votes), kw.get('n'))
         except Exception:       # noqa
             seats = None
         if isinstance(seats, dict) and any(con not in seats for con in votes) and _is_err(w):
